@@ -13,6 +13,12 @@ CHECKS = {
  "C11": dict(level="proof", technique="Lean 4 invariant proof over all event traces and crash points of a commit-level store model + crash-point enumeration (os._exit / SIGKILL) on the real writer",
    text="PARTIAL. Lean 4 proves for every trace of upsert/commit events on any number of connections (serial or interleaved writers) and every crash point that the rows a reader finds have pairwise distinct ids, are blobs of upserts that were executed and committed before the crash (so any predicate true of every blob handed to the store, e.g. costs match the vector, is true of every row), that a synchronisation whose commit is in the prefix stays present at every later crash point, and that the last single-statement synchronisation wins. SQLite's atomic commit is the model's assumption. The tie to the code is crash-point enumeration: a forked writer (NSGA-II, eps-MOEA, sweep; serial and parallel) is killed at every logged event (objective call, before/after every SQL statement and commit) and at random instants; the file must open through a read-mode view, every row must be complete with costs matching its vector, every synchronisation that had returned must be present, and the raw rows must equal the model's crashAt of the logged prefix (either side of an in-flight commit). PRAGMA journal_mode is monitored.",
    note="Assumed: SQLite atomic commit / rollback-journal recovery, OS page cache survives process death (no power loss; synchronous=0 is not claimed durable), crashes before the store exists are excluded by the statement. Lean kernel + standard axioms.", ref="5/C11"),
+ "C02": dict(level="proof", technique="Lean 4 loop-invariant proof (pair-progress invariant for the comparison phase, counter = number of unprocessed dominators for the peeling loop, uniqueness by strong induction) + exact differential correspondence through phi",
+   text="Proof. For every population (any size, number of objectives, duplicates, feasibility markers, order) the Lean model of fast_nondominated_sorting - reset, i<j comparison loops with counters and dominate lists, peeling while loop with fuel - gives every member a front number satisfying the property's recurrence (fnds_rank), proved at counter/pair granularity, not by enumeration or a level abstraction. Also proved: termination within fuel n+1, uniqueness of the recurrence, order/multiplicity independence (fnds_perm), front 1 = non-dominated set, nobody unranked, same front => incomparable, dominator => earlier front, and that the driver's isTrueRank check accepts exactly the model's answer. The model is tied to /repo by exact equality of front numbers on generated populations (incl. objects carrying stale features, every input order).",
+   note="Theorems assume equal numbers of objectives (SameLen) and the C01 comparator model. Not covered: the same object twice, colliding ids, NaN/inf costs. Tie to the code is a differential test. Lean kernel + standard axioms.", ref="5/C02"),
+ "C09": dict(level="proof", technique="Lean 4 proofs about the loop models of generate / pop_acceptance / run counters (invariants, induction on the oracle list and on the generation count) + differential runs with a logging problem",
+   text="Lean 4 proves for every N>=2, every oracle of children and every equality test that the generate loop returns exactly N pairwise unequal offspring whenever it returns (generate_size); that pop_acceptance keeps the population size and follows its three clauses for every flag vector and random pick (popAccept_size, popAccept_cases); and the run counters: NSGA-II N*G evaluations and generations 1..G of N designs, steady algorithms N*(G+1) evaluations and generations 0..G (induction on G). Elitism rests on the C03 truncation theorems. Tie to the code: real NSGA-II / eps-MOEA / OMOPSO / SMPSO runs over a grid of configurations with and without injected transient failures (evaluation count, tag histogram, per-generation distinctness, elitism and best-cost monotonicity evaluated on the recorded generations), GeneticAlgorithm.generate with scripted children, Selector.pop_acceptance with recorded random picks - all compared with the model.",
+   note="The run-level counters are simple models; what carries weight there is the correspondence with real runs (a test). PSOGA not covered (not claimed by the statement). Lean kernel + standard axioms.", ref="5/C09"),
 }
 TODO = {}
 def main():
